@@ -131,6 +131,16 @@ fn corrupt(r: &mut Rng, line: &str) -> String {
             // deep inside a multi-segment path
             line.replacen("|", "|B|1:1|L|2:2|P|x:0|", 1)
         }
+        5 if fields.len() >= 9 => {
+            // corrupt one entry inside a '|'-separated late field (edge sounds / edge sets)
+            let mut f: Vec<String> = fields.iter().map(|s| s.to_string()).collect();
+            let k = 8 + r.below(f.len() - 8);
+            let mut parts: Vec<String> = f[k].split('|').map(|s| s.to_string()).collect();
+            let j = r.below(parts.len());
+            parts[j] = r.pick(&["x:0", "3", "1:y", "", "9:9:9", "99999999999:1"]).to_string();
+            f[k] = parts.join("|");
+            f.join(",")
+        }
         5 => {
             let k = r.below(line.len().max(1));
             let mut s = line.to_string();
@@ -165,6 +175,40 @@ pub fn generate(tier: &str, seed: u64, out: &mut Out) {
     .into_iter()
     .map(|v| v.into_iter().map(String::from).collect())
     .collect();
+    // targeted: a slider rejected in each of its LATE fields (edge sounds, edge sets, extras),
+    // followed by short-form and long-form sliders and circles that would observe residue
+    let observers = [
+        "200,200,900,2,0,L|250:250,1,60",
+        "200,200,900,2,4,B|250:250|300:200,2,90",
+        "200,200,900,2,2,L|250:250,2,60,2|0|2,0:0|0:0|0:0,0:0:0:0:",
+        "200,200,900,1,0,0:0:0:0:",
+        "200,200,900,6,8,P|250:250|300:200,1,80,8|8",
+    ];
+    let bad_sliders = [
+        "100,100,500,2,0,B|150:150|200:100,2,120,2|4|8,2:3|x:0|1:1,3:2:0:0:",
+        "100,100,500,2,0,B|150:150|200:100,2,120,2|4|8,2:3|3|1:1,3:2:0:0:",
+        "100,100,500,2,0,B|150:150|200:100,3,120,2|4|8|2,3:3|2:2|1:x|1:1,0:0:0:0:",
+        "100,100,500,2,0,B|150:150|200:100,2,120,2|4|8,2:3|2:1|1:1,3:2:x:0:",
+        "100,100,500,2,0,B|150:150|200:100,2,120,2|4|8,3:1|3:1|3:1,1:1:0:abc:",
+        "100,100,500,2,0,B|150:150|200:100,2,120,2|4|8,3:1|3:1|99999999999:1",
+        "100,100,500,2,0,B|150:150|200:100|P|x:0,2,120",
+        "100,100,500,2,0,B|150:150|200:100,9001,120,2|4,1:2|2:1",
+    ];
+    for b in bad_sliders {
+        for o in observers {
+            for tail in ["", "300,300,1500,2,0,L|310:310,1,20"] {
+                let mut lines: Vec<String> = vec!["[General]".into(), "Mode:0".into(), "[TimingPoints]".into(), "0,500,4,2,1,60,1,0".into(), "[HitObjects]".into()];
+                lines.push("50,50,100,1,0,0:0:0:0:".into());
+                lines.push(b.into());
+                lines.push(o.into());
+                if !tail.is_empty() {
+                    lines.push(tail.into());
+                }
+                let nr = check_file(&lines, "late-field-rejection", out);
+                record_case(&lines, nr, out);
+            }
+        }
+    }
     for c in &corpus {
         let nr = check_file(c, "corpus", out);
         record_case(c, nr, out);
@@ -192,10 +236,8 @@ fn record_case(lines: &[String], nrejected: usize, out: &mut Out) {
     let text = lines.join("\n");
     for &id in decoders::MODEL_DECODERS {
         if id >= 6 {
-            decoders::model_case(id, &text, out, "c06");
+            // non-trivial (RULE): the file has at least one rejected routed line
+            decoders::model_case_with(id, &text, out, "c06", nrejected > 0);
         }
-    }
-    if nrejected > 0 {
-        out.nontrivial += 0;
     }
 }
